@@ -6,6 +6,9 @@ VARIABLES kind, par
 vars == <<kind, par>>
 F1 == DefaultFmt
 F2 == [DefaultFmt EXCEPT !.rate = 11025]
+\* one format per field of the format record, differing from F1 in THAT field only (variants 3..7; 12-bit samples in 2-byte blocks are legal PCM)
+FVar(v) == IF v = 2 THEN F2 ELSE IF v = 3 THEN [DefaultFmt EXCEPT !.tag = 2] ELSE IF v = 4 THEN [DefaultFmt EXCEPT !.ch = 2]
+           ELSE IF v = 5 THEN [DefaultFmt EXCEPT !.abps = 44101] ELSE IF v = 6 THEN [DefaultFmt EXCEPT !.align = 4] ELSE [DefaultFmt EXCEPT !.bits = 12]
 \* base names: "t1" "T2" "trk_0008" (8 chars) "ninechars" (9) "t1" in upper case "T1"
 \* ... and names with dots (the stored name is the file name without its LAST extension; a leading dot starts no extension):
 \*     "abcde.gh" (8: fits) "abcde.ghi" (9) ".bcdefghi" (9) "abcdefgh." (9, the file is "abcdefgh..wav")
@@ -59,7 +62,7 @@ Distinct(ixs) == \A i, j \in DOMAIN ixs : i # j => ixs[i] # ixs[j]
 WavSet(nis, dls, li, variant) ==
   LET n == Len(nis) IN
   [i \in 1..n |-> Wav(nis[i], dls[i], ((li + i) % Len(Layouts)) + 1, IF (i + li) % 2 = 0 THEN 16 ELSE 18,
-                       IF variant = 2 /\ i = n /\ n > 1 THEN F2 ELSE F1, i)]
+                       IF variant >= 2 /\ i = n /\ n > 1 THEN FVar(variant) ELSE F1, i)]
 \* random sets: names of 1..9 characters over letters of both cases, digits and '_', data lengths 0..40, 0..2 extra chunks in each position
 \* (the property quantifies over letters, digits and underscores; the code orders members by the file name INCLUDING ".wav", which is the order
 \*  of the stored names only as long as no character below '.' and no inner dot occurs - so dots stay out of the multi-member families)
@@ -73,8 +76,9 @@ RandSet(r) == [i \in 1..Below(Seed * 211 + r, 1, 0, 6) |-> RWav(r, i)]
 Init == \/ /\ kind = "rand" /\ par \in {<<r>> : r \in 1..NRand}
         \/ /\ kind = "notwav" /\ par \in {<<v, f>> : v \in 1..Len(NotWav), f \in BOOLEAN}
         \/ /\ kind = "set"
-           /\ \E n \in 0..MaxFiles : \E nis \in Seqs(1..Len(Names), n) : \E dls \in Seqs(DataLens, n) : \E li \in 1..Len(Layouts) : \E variant \in {1, 2} :
-                Distinct(nis) /\ (n > 1 => \A i \in 1..n : nis[i] <= NPlain) /\ par = <<nis, dls, li, variant>>
+           /\ \E n \in 0..MaxFiles : \E nis \in Seqs(1..Len(Names), n) : \E dls \in Seqs(DataLens, n) : \E li \in 1..Len(Layouts) : \E variant \in 1..7 :
+                /\ Distinct(nis) /\ (n > 1 => \A i \in 1..n : nis[i] <= NPlain) /\ par = <<nis, dls, li, variant>>
+                /\ (variant > 2 => n = 2 /\ li = 1 /\ nis \in {<<1, 2>>, <<2, 1>>} /\ dls[1] = dls[2])        \* the single-field differences: on two members, either order
 Next == UNCHANGED vars
 Spec == Init /\ [][Next]_vars
 Set == IF kind = "rand" THEN RandSet(par[1]) ELSE IF kind = "notwav" THEN <<>> ELSE WavSet(par[1], par[2], par[3], par[4])
